@@ -10,7 +10,7 @@ props = sys.argv[4:] or [target]
 ALL = ["C%02d" % i for i in range(1, 21)]
 if props == ["all"]:
     props = ALL
-sid = "%s-%s" % (target, m)
+sid = os.environ.get("SID") or "%s-%s" % (target, m)
 base = "/tmp/mut/%s" % sid
 shutil.rmtree(base, ignore_errors=True)
 os.makedirs(base)
